@@ -201,6 +201,8 @@ def task(shape, label, copy_mode=False):
         try:
             ok, kinds, exp = native_run(t, sn, copy_mode)
         except Exception as e:  # noqa
+            from pysym.harness import guard_repo_exception
+            guard_repo_exception(e)
             return {"input": t, "observed": f"raised {type(e).__name__}: {e}", "expected": "blocks"}
         if ok:
             return None
